@@ -15,7 +15,7 @@ def _init(scratch_dir):
     os.environ["VERIF_POOL_SCRATCH"] = scratch_dir
 
 
-JOB_LIMIT_S = int(os.environ.get("VERIF_JOB_LIMIT", "900"))
+JOB_LIMIT_S = int(os.environ.get("VERIF_JOB_LIMIT", "900" if os.environ.get("VERIF_TIER", "quick") == "quick" else "5400"))
 
 
 def _guarded(arg):
